@@ -67,7 +67,7 @@ def some_frames(rnd, serial, mem, n):
     return out
 
 
-def cases(tier, seed):
+def cases_plain(tier, seed):
     rnd = random.Random(seed)
     cs = []
     quick = tier == "quick"
@@ -89,6 +89,12 @@ def cases(tier, seed):
                 for n in range(max(0, lim - 2), lim + 4):
                     for status in (0, 7, 5, 4):
                         ops += ["rp.backend %d 3 %d" % (status, n)] + feed(serial, R.request(serial, False, mem == 16, n, n, n)) + rpf()
+                # the same with every combination of checksum option bits the receiver accepts on a read request (a header
+                # of 12, 14 or 16 octets in front of the place where the answer is assembled), whatever the transport
+                for opts in (0, R.HDCRC, R.PLCRC, R.HDCRC | R.PLCRC):
+                    o = opts | (R.WS16 if mem == 16 else 0)
+                    for n in range(max(0, lim - 4), lim + 6):
+                        ops += ["rp.backend 0 3 %d" % n] + feed(serial, R.frame(R.RREQ, o, 0, n, n, n)) + rpf()
                 cs.append(Case("len-%s-%d-%d" % (ep, mem, B), ops, ("lengths", ep)))
         # allocation failures
         ops = [R.cfg(16, ep, 128)]
@@ -200,3 +206,19 @@ def cases(tier, seed):
 
 def nontrivial(case, lines):
     return any("live=1" in l for l in lines)
+
+
+def cases(tier, seed):
+    """cases_plain, plus every fourth case once more with the replies going into a chunk-style sink that takes three
+    octets per call (rp.sinkmode): what is answered must not depend on how the sink takes it"""
+    cs = cases_plain(tier, seed)
+    extra = []
+    for i, c in enumerate(cs):
+        if i % 4 == 0 and c.ops and c.ops[0].startswith("rp.cfg"):
+            ops = []
+            for op in c.ops:
+                ops.append(op)
+                if op.startswith("rp.cfg"):
+                    ops.append("rp.sinkmode chunk:3")
+            extra.append(Case(c.cid + "-chunk3", ops, tuple(c.tags) + ("chunk-sink",)))
+    return cs + extra
